@@ -123,12 +123,14 @@ func newPackage(program *loader.Program, pkgInfo *loader.PackageInfo, plugins []
 	// Every name that the package declares is spoken for, whether it is called or not:
 	// a function that is only used as a value, a type, a variable or a constant.
 	// The functions of the generated file are left out, they are the ones that are generated again.
+	declared := make(map[string]struct{})
 	scope := pkgInfo.Pkg.Scope()
 	for _, name := range scope.Names() {
 		if file := program.Fset.File(scope.Lookup(name).Pos()); file != nil && filepath.Base(file.Name()) == derivedFilename {
 			continue
 		}
 		reserved[name] = struct{}{}
+		declared[name] = struct{}{}
 	}
 	// So are the names under which the files of the package import other packages, and what a dot import brings along:
 	// a function of the package cannot bear one of them either.
@@ -169,6 +171,7 @@ func newPackage(program *loader.Program, pkgInfo *loader.PackageInfo, plugins []
 	}
 
 	printer := newPrinter(pkgInfo.Pkg.Name())
+	printer.(interface{ setDeclared(map[string]struct{}) }).setDeclared(declared)
 	qual := newQualifier(printer, pkgInfo.Pkg)
 	typesmaps := make(map[string]TypesMap, len(plugins))
 	deps := make(map[string]Dependency, len(plugins))
